@@ -69,6 +69,11 @@ def readN : List Nat → Option (Nat × List Nat)
 
 def inRange (s : List Nat) : Bool := s.all fun c => 63 ≤ c && c ≤ 126
 
+/-- the optional header `>>graph6<<` -/
+def g6Header : List Nat := [62, 62, 103, 114, 97, 112, 104, 54, 60, 60]
+/-- the optional header `>>sparse6<<` -/
+def s6Header : List Nat := [62, 62, 115, 112, 97, 114, 115, 101, 54, 60, 60]
+
 /-! ## graph6 -/
 
 /-- the upper triangle in the order (0,1),(0,2),(1,2),(0,3),... -/
